@@ -50,6 +50,12 @@ class Unsupported(Exception):
 # ('Prod', (T1, T2, ...)) ('Dict', K, V) ('Unit',); None inside = not yet known.
 
 INT, BOOL, STR, UNIT = ('Int',), ('Bool',), ('Str',), ('Unit',)
+# --- heap mode (object store, notes/SRCTIE.md "Object store"): ('Val',) a dynamically typed PyHeap.Val,
+# ('Heap',) the store, ('Fun', A, B) a callable A -> Except PyExc B held in an attribute, ('Sentinel',) the type of
+# a sentinel NAME (`_MISSING`) before it is coerced to `none` of an Option / `Val.sentinel`
+VAL, HEAP, SENTINEL = ('Val',), ('Heap',), ('Sentinel',)
+HEAP_TP = ['κ', 'ν']          # the two item types of the class being translated (its spec: heap.key / heap.val)
+SENTINEL_NAMES = set()         # heap mode: sentinel names read natively (not rewritten to None) in this function
 
 
 def parse_type(text: str):
@@ -100,6 +106,13 @@ def parse_type(text: str):
             return ('Dict', kt, atom())
         if t in ('None', 'Unit'):
             return UNIT
+        if t == 'Val':
+            return VAL
+        if t == 'Heap':
+            return HEAP
+        if t == 'Fun':
+            a = atom()
+            return ('Fun', a, atom())
         if t and t[0] in 'αβγδκν':
             return ('Var', t)
         raise ValueError('bad type ' + text)
@@ -140,6 +153,12 @@ def show_type(t, top=True) -> str:
         r = 'PyRt.Dict %s %s' % (show_type(t[1], False), show_type(t[2], False))
     elif k == 'Unit':
         r = 'Unit'
+    elif k == 'Val':
+        r = 'PyHeap.Val %s %s' % tuple(HEAP_TP)
+    elif k == 'Heap':
+        r = 'PyHeap.Heap %s %s' % tuple(HEAP_TP)
+    elif k == 'Fun':
+        r = '%s → Except PyExc %s' % (show_type(t[1], False), show_type(t[2], False))
     else:
         raise ValueError(t)
     if top or ' ' not in r:
@@ -161,6 +180,13 @@ def unify(a, b, node=None):
         return ('Prod', tuple(unify(x, y, node) for x, y in zip(a[1], b[1])))
     if a[0] == 'Dict' and b[0] == 'Dict':
         return ('Dict', unify(a[1], b[1], node), unify(a[2], b[2], node))
+    # heap mode: a sentinel name is `none` of an Option / `Val.sentinel`; a key / value / int / None flows into
+    # a dynamically typed variable boxed
+    if a == SENTINEL or b == SENTINEL:
+        o = b if a == SENTINEL else a
+        return o if o[0] in ('Option', 'Val') else ('Option', o)
+    if (a == VAL and boxable(b)) or (b == VAL and boxable(a)):
+        return VAL
     # T and Option T  (a value that may be None)
     if a[0] == 'Option' and b[0] != 'Option':
         return ('Option', unify(a[1], b, node))
@@ -169,9 +195,34 @@ def unify(a, b, node=None):
     raise Unsupported(node if node is not None else 'type', 'conflicting types %s / %s' % (a, b))
 
 
+def boxable(t) -> bool:
+    """heap mode: static types whose values can be stored in a `Val`"""
+    return t is not None and (t == INT or t == SENTINEL or (t[0] == 'Var' and t[1] in HEAP_TP)
+                              or (t[0] == 'Option' and t[1] is None))
+
+
+def box(e, t, node=None):
+    """Lean term of the `Val` holding the statically typed value `e : t`"""
+    if t == VAL:
+        return e
+    if t == INT:
+        return '(PyHeap.Val.int %s)' % e
+    if t == SENTINEL:
+        return 'PyHeap.Val.sentinel'
+    if t[0] == 'Option' and t[1] is None:
+        return 'PyHeap.Val.none'
+    if t[0] == 'Var' and t[1] == HEAP_TP[0]:
+        return '(PyHeap.Val.key %s)' % e
+    if t[0] == 'Var' and t[1] == HEAP_TP[1]:
+        return '(PyHeap.Val.val %s)' % e
+    raise Unsupported(node if node is not None else 'type', 'a value of type %s stored in the object store' % (t,))
+
+
 def known(t) -> bool:
     if t is None:
         return False
+    if t[0] == 'Fun':
+        return known(t[1]) and known(t[2])
     if t[0] in ('List', 'Option', 'Set'):
         return known(t[1])
     if t[0] == 'Prod':
@@ -199,6 +250,10 @@ def default_of(t, inhabited=()) -> str:
         return '(PyRt.Set.empty : %s)' % show_type(t)
     if k == 'Unit':
         return '()'
+    if k == 'Val':
+        return '(PyHeap.Val.none : %s)' % show_type(t)
+    if k == 'Heap':
+        return '(PyHeap.Heap.empty : %s)' % show_type(t)
     if k == 'Var' and t[1] in inhabited:
         return '(default : %s)' % t[1]
     raise Unsupported('type', 'a local variable of abstract type %s has no initial value' % (t,))
@@ -269,7 +324,8 @@ def narrow(test):
     """(variables known not to be None when `test` is true, ... when it is false)"""
     e = frozenset()
     if isinstance(test, ast.Compare) and len(test.ops) == 1 and isinstance(test.left, ast.Name) \
-            and isinstance(test.comparators[0], ast.Constant) and test.comparators[0].value is None:
+            and ((isinstance(test.comparators[0], ast.Constant) and test.comparators[0].value is None)
+                 or (isinstance(test.comparators[0], ast.Name) and test.comparators[0].id in SENTINEL_NAMES)):
         if isinstance(test.ops[0], ast.IsNot):
             return frozenset([test.left.id]), e
         if isinstance(test.ops[0], ast.Is):
@@ -350,6 +406,8 @@ def method_mutates(cls, fdef, tree, seen=()) -> bool:
     self_name = fdef.args.args[0].arg
     for n in ast.walk(fdef):
         targets = []
+        if cls.get('heap') and isinstance(n, ast.List) and isinstance(n.ctx, ast.Load):
+            return True                                          # heap mode: a list display allocates a cell
         if isinstance(n, ast.Assign):
             targets = n.targets
         elif isinstance(n, (ast.AugAssign, ast.AnnAssign)):
@@ -362,6 +420,8 @@ def method_mutates(cls, fdef, tree, seen=()) -> bool:
                     return True
                 if isinstance(e, ast.Subscript) and isinstance(e.value, ast.Name) and e.value.id == self_name:
                     return True                                  # self[k] = v / del self[k]
+                if cls.get('heap') and isinstance(e, ast.Subscript):
+                    return True                                  # heap mode: x[i] = v writes the object store
         if isinstance(n, ast.Call) and isinstance(n.func, ast.Attribute):
             if self_rooted(n.func.value, self_name) and n.func.attr in MUTATING_METHODS:
                 return True
@@ -385,7 +445,15 @@ class FnTranslator:
     def __init__(self, fdef: ast.FunctionDef, spec: dict, module_defs: dict, tree=None, emitted=None):
         import py2lean_prepass                   # desugaring into the subset; the identity when nothing applies
         self.prepass = {}
+        self.heap = (spec.get('cls') or {}).get('heap')     # --- heap mode: the class has an object store
+        hnotes = set()
+        if self.heap:
+            import py2lean_heap
+            HEAP_TP[:] = [self.heap.get('key', 'κ'), self.heap.get('val', 'ν')]
+            fdef = py2lean_heap.prepass(fdef, getattr(fdef, '_module_tree', None), spec['cls'], spec, hnotes)
         fdef = py2lean_prepass.run(fdef, getattr(fdef, '_module_tree', None), spec, self.prepass)
+        if hnotes:
+            self.prepass['prepass'] = sorted(set(self.prepass.get('prepass', [])) | hnotes)
         self.f = fdef
         self.spec = spec
         self.module_defs = module_defs          # name -> ast.FunctionDef of module-level functions
@@ -410,8 +478,21 @@ class FnTranslator:
                 raise Unsupported(fdef, 'a generator that changes the object state')
         self.tparams = list(spec.get('tparams', (self.cls or {}).get('tparams', [])))
         self.deceq = list(spec.get('deceq', (self.cls or {}).get('deceq', [])))
+        self.inhab = list((self.cls or {}).get('inhabited', []))    # type variables that only need a default value
         sentinels = list(spec.get('sentinels', (self.cls or {}).get('sentinels', [])))
-        if sentinels:
+        self.sentinels = []
+        SENTINEL_NAMES.clear()
+        if sentinels and self.heap:
+            # heap mode: a sentinel name is read natively (`none` of an Option, `Val.sentinel` in the store)
+            self.sentinels = sentinels
+            SENTINEL_NAMES.update(sentinels)
+            for n in ast.walk(fdef):
+                if isinstance(n, ast.Name) and n.id in sentinels and not isinstance(n.ctx, ast.Load):
+                    raise Unsupported(n, 'assignment to a sentinel name')
+            for a in fdef.args.args:
+                if a.arg in sentinels:
+                    raise Unsupported(fdef, 'parameter named like a sentinel')
+        elif sentinels:
             # module-level "argument omitted" markers (`_MISSING`) of a parameter declared `Option T`: read as None
             import copy
             self.f = fdef = copy.deepcopy(fdef)
@@ -455,12 +536,14 @@ class FnTranslator:
         b = ('{%s : Type} ' if implicit else '(%s : Type) ') % ' '.join(self.tparams)
         if implicit:        # key types: decidable equality, and a default for locals not yet bound
             b += ''.join('[DecidableEq %s] [Inhabited %s] ' % (v, v) for v in self.deceq)
+            b += ''.join('[Inhabited %s] ' % v for v in self.inhab)
         return b
 
     @property
     def cls_st(self):
         """Lean type of the object state record"""
-        return self.cls['lean_name'] + '.St' + (''.join(' ' + p for p in self.cls.get('tparams', [])))
+        return self.cls.get('state_lean', self.cls['lean_name']) + '.St' + (
+            ''.join(' ' + p for p in self.cls.get('tparams', [])))
 
     @property
     def RT(self):
@@ -560,7 +643,7 @@ class FnTranslator:
         return self.cls_st if t == ('Obj',) else show_type(t)
 
     def default_of(self, t):
-        return default_of(t, self.deceq)
+        return default_of(t, self.deceq + self.inhab)
 
     # -- guard calls -> precondition --------------------------------------------------------
     def _strip_guards(self):
@@ -722,20 +805,25 @@ class FnTranslator:
 
     def _is_place(self, tgt):
         """an attribute of `self` / an item of one: assignable, nothing to infer"""
+        if self.heap and isinstance(tgt, ast.Subscript):
+            return True                      # heap mode: `x[i] = v` / `x[:] = [...]` write the object store
         return self.cls is not None and (self_rooted(tgt, self.self_name) or self.dict_view(
             tgt.value if isinstance(tgt, ast.Subscript) else None) is not None)
 
     def cls_defines(self, name) -> bool:
         """does the class body define (override) method `name`?"""
-        cdef = None
-        for n in self.tree.body:
-            if isinstance(n, ast.ClassDef) and n.name == self.cls['name']:
-                cdef = n
-        if cdef is None:
-            raise Unsupported(self.f, 'class %s not found' % self.cls['name'])
-        return any(isinstance(n, ast.FunctionDef) and n.name == name for n in cdef.body) or any(
-            isinstance(n, ast.Assign) and any(isinstance(t, ast.Name) and t.id == name for t in n.targets)
-            for n in cdef.body)
+        for cname in self.cls.get('mro', [self.cls['name']]):     # `mro`: the class and its translated bases
+            cdef = None
+            for n in self.tree.body:
+                if isinstance(n, ast.ClassDef) and n.name == cname:
+                    cdef = n
+            if cdef is None:
+                raise Unsupported(self.f, 'class %s not found' % cname)
+            if any(isinstance(n, ast.FunctionDef) and n.name == name for n in cdef.body) or any(
+                    isinstance(n, ast.Assign) and any(isinstance(t, ast.Name) and t.id == name for t in n.targets)
+                    for n in cdef.body):
+                return True
+        return False
 
     def dict_view(self, node):
         """`self` of a dict subclass (spec `dict_base`) / `self.<peer>`: the state attribute holding the dict
@@ -921,6 +1009,10 @@ class FnTranslator:
             upd = []
             if len(st.targets) != 1:
                 raise Unsupported(st, 'chained assignment')
+            if self.heap:
+                hs = self._heap_stmt(st, rest, k, ctx, ex)
+                if hs is not None:
+                    return hs
             callee = self._method_call(st.value, ctx)
             if callee is not None and callee['mutates']:
                 return self._call_stmt(callee, st.value, st.targets[0], rest, k, ctx, ex)
@@ -975,7 +1067,7 @@ class FnTranslator:
                 if bt[0] != 'Dict' or len(st.targets) != 1:
                     raise Unsupported(st, 'del of a non-dict item')
                 d = read()
-                kx, _ = ex.expr(tgt.slice, bt[1])
+                kx = ex.key_term(tgt.slice, bt[1])
                 if self.raises:
                     upd.append(write(ex.partial('PyRt.Dict.del? %s %s' % (d, kx), st)))
                 else:
@@ -1086,6 +1178,9 @@ class FnTranslator:
             return self._while(st, rest, k, ctx)
         if isinstance(st, ast.Try):
             return self._try(st, rest, k, ctx)
+        if isinstance(st, ast.Raise) and self.raises and self.heap and st.exc is None and st.cause is None \
+                and ctx.get('cur_exc'):
+            return self._raise(ctx['cur_exc'], ctx)      # heap mode: bare `raise` in a handler re-raises its exception
         if isinstance(st, ast.Raise) and self.raises:
             return self._raise('PyExc.' + self._exc_class(st), ctx)
         raise Unsupported(st)
@@ -1186,7 +1281,7 @@ class FnTranslator:
         for hd in st.handlers:
             if hd.name is not None or not isinstance(hd.type, ast.Name) or hd.type.id not in EXC_NAMES:
                 raise Unsupported(hd, 'handler other than `except <one class of PyExc>:`')
-            arms.append((hd.type.id, self.block(hd.body, kk, inner)))
+            arms.append((hd.type.id, self.block(hd.body, kk, dict(inner, cur_exc='PyExc.' + hd.type.id))))
         text = self._raise('e', ctx)
         for name, b in reversed(arms):
             text = 'if e = PyExc.%s then\n%s\nelse\n%s' % (name, indent(b), indent(text))
@@ -1236,7 +1331,7 @@ class FnTranslator:
             kx, _ = ex.expr(tgt.slice, t[1])
             new = '(PyRt.Dict.set %s %s %s)' % (d, kx, v)
         else:
-            kx, _ = ex.expr(tgt.slice, t[1])
+            kx = ex.key_term(tgt.slice, t[1])
             new = ex.partial('PyRt.Dict.del? %s %s' % (d, kx), st) if self.raises else \
                 '(PyRt.Dict.erase %s %s)' % (d, kx)
         return self._wrap(ex, self._let_update([('self.' + attr, new)]) + '\n' + self.block(rest, k, ctx), ctx)
@@ -1266,12 +1361,12 @@ class FnTranslator:
             vx, _ = ex.expr(args[1], t[2])
             return None, None, [('self.' + attr, '(PyRt.Dict.set %s %s %s)' % (d, kx, vx))]
         if m == '__delitem__' and len(args) == 1:
-            kx, _ = ex.expr(args[0], t[1])
+            kx = ex.key_term(args[0], t[1])
             return None, None, [('self.' + attr, ex.partial('PyRt.Dict.del? %s %s' % (d, kx), node))]
         if m == 'clear' and not args:
             return None, None, [('self.' + attr, '([] : %s)' % show_type(t))]
         if m == 'pop' and len(args) == 1:
-            kx, _ = ex.expr(args[0], t[1])
+            kx = ex.key_term(args[0], t[1])
             v = ex.partial('PyRt.Dict.pop? %s %s' % (d, kx), node)
             return v + '.1', t[2], [('self.' + attr, v + '.2')]
         if m == 'popitem' and not args:
@@ -1290,6 +1385,54 @@ class FnTranslator:
                 self._bind_value(e, prod_proj(val, i, len(vt[1])), et, upd, node)
         else:
             raise Unsupported(node, 'assignment target')
+
+    # -- heap mode: statements that allocate / re-fill a cell / pop an item of a dict attribute --------
+    @property
+    def heap_attr(self):
+        return self.heap.get('field', 'heap')
+
+    def _cell_display(self, node, ex):
+        """the Lean list of `Val`s of a list display (its items are evaluated left to right and boxed)"""
+        parts = []
+        for e in node.elts:
+            if isinstance(e, (ast.List, ast.Starred)):
+                raise Unsupported(node, 'a nested list display')
+            pe, pt = ex.expr(e)
+            parts.append(box(pe, pt, node))
+        return '([%s] : List (%s))' % (', '.join(parts), show_type(VAL))
+
+    def _heap_stmt(self, st, rest, k, ctx, ex):
+        tgt, value = st.targets[0], st.value
+        h = self.view_term(self.heap_attr)
+        upd = None
+        if isinstance(tgt, ast.Name) and isinstance(value, ast.List) and self.vars.get(tgt.id) == VAL:
+            # x = [v0, v1, ...]: a new cell; x is the reference to it
+            cell = self._cell_display(value, ex)
+            upd = [(tgt.id, '(PyHeap.Heap.next %s)' % h), ('self.' + self.heap_attr, '(PyHeap.Heap.alloc %s %s)' % (h, cell))]
+        elif isinstance(tgt, ast.Subscript) and isinstance(tgt.slice, ast.Slice) and isinstance(value, ast.List) \
+                and tgt.slice.lower is None and tgt.slice.upper is None and tgt.slice.step is None \
+                and self._type_of(tgt.value, ex.nn) == VAL:
+            # x[:] = [v0, v1, ...]: the cell keeps its identity and gets new contents (the temporary list of the
+            # right-hand side is not allocated: it is garbage at once)
+            cell = self._cell_display(value, ex)
+            b, _ = ex.expr(tgt.value, VAL)
+            upd = [('self.' + self.heap_attr, ex.partial('PyHeap.Heap.assign? %s %s %s' % (h, self._atom(b), cell), st))]
+        elif isinstance(tgt, ast.Name) and isinstance(value, ast.Call) and isinstance(value.func, ast.Attribute) \
+                and value.func.attr == 'pop' and len(value.args) == 1 and not value.keywords \
+                and self.state_attr(value.func.value) is not None \
+                and self.cls_state[self.state_attr(value.func.value)][0] == 'Dict':
+            # x = self.<dict attribute>.pop(k)
+            a = self.state_attr(value.func.value)
+            dt = self.cls_state[a]
+            if self.vars.get(tgt.id) != dt[2]:
+                raise Unsupported(st, 'type of the popped value')
+            kx = ex.key_term(value.args[0], dt[1])
+            v = ex.partial('PyRt.Dict.pop? %s %s' % (self.view_term(a), kx), st)
+            upd = [(tgt.id, v + '.1'), ('self.' + a, v + '.2')]
+        if upd is None:
+            return None
+        ctx2 = self._forget(ctx, [st])
+        return self._wrap(ex, self._let_update(upd) + '\n' + self.block(rest, k, ctx2), ctx)
 
     # -- places: attributes of self and items of them ---------------------------------------------
     def _place(self, node, ex):
@@ -1344,7 +1487,8 @@ class FnTranslator:
 
     @staticmethod
     def _scalar(t):
-        return t[0] in ('Int', 'Bool', 'Str', 'Var', 'Unit') or (t[0] == 'Option' and FnTranslator._scalar(t[1]))
+        return t[0] in ('Int', 'Bool', 'Str', 'Var', 'Unit', 'Val', 'Fun', 'Sentinel') or (
+            t[0] == 'Option' and FnTranslator._scalar(t[1]))
 
     def _alias_check(self, value, tgt_attr, t, node):
         """value semantics is only right when no two live references to one mutable object exist: in a
@@ -1366,6 +1510,16 @@ class FnTranslator:
             if any(n == tgt.id for n, _ in upd):
                 raise Unsupported(node, 'variable assigned twice in one tuple assignment')
             upd.append((tgt.id, e))
+        elif self.heap and isinstance(tgt, ast.Subscript) and not isinstance(tgt.slice, ast.Slice) \
+                and self._type_of(tgt.value, ex.nn) == VAL:
+            # heap mode: `x[i] = v` on a dynamically typed `x`: the right-hand side, then `x`, then `i`, then the store
+            v, vt = ex.expr(value)
+            v = box(v, vt, node)
+            b, _ = ex.expr(tgt.value, VAL)
+            i, _ = ex.expr(tgt.slice, INT)
+            upd.append(('self.' + self.heap_attr, ex.partial(
+                'PyHeap.Heap.set? %s %s %s %s' % (self.view_term(self.heap_attr), self._atom(b), self._atom(i),
+                                                 self._atom(v)), node)))
         elif self._is_place(tgt):
             t = self._place_type(tgt)
             self._alias_check(value, self._root_attr(tgt), t, node)
@@ -1686,6 +1840,8 @@ class ExprTr:
     def var(self, name, node):
         if name in self.local:
             return self.local[name]
+        if name in self.fn.sentinels and self.env is None and name not in self.fn.vars:
+            return 'PyHeap.Val.sentinel', SENTINEL       # heap mode: coerced to `none` of an Option where one is expected
         if self.env is not None:
             if name not in self.env:
                 raise Unsupported(node, 'free name %s' % name)
@@ -1708,6 +1864,18 @@ class ExprTr:
             raise Unsupported(node, '%s is overridden by the class%s' % (
                 dunder, ' (peer object)' if peer else ''))
         return self.fn.view_term(attr), self.fn.cls_state[attr]
+
+    def key_term(self, node, kt):
+        """the key of a dict LOOKUP / DELETION: heap mode allows a dynamically typed value there (a non-key is a
+        KeyError, a cell a TypeError: `PyHeap.Val.asKey?`)"""
+        if self.fn.heap and self.env is None:
+            e, t = self.expr(node)
+            if t == VAL:
+                if kt != ('Var', HEAP_TP[0]):
+                    raise Unsupported(node, 'a dynamically typed key for a dict with keys %s' % (kt,))
+                return self.partial('PyHeap.Val.asKey? %s' % FnTranslator._atom(e), node)
+            return self.coerce(e, t, kt, node)[0]
+        return self.expr(node, kt)[0]
 
     def partial(self, term, node):
         """a partial operation of the raising mode: bound once, before the statement, in evaluation order"""
@@ -1736,6 +1904,16 @@ class ExprTr:
         if isinstance(node, ast.UnaryOp) and isinstance(node.op, ast.Not):
             r = self.static_test(node.operand)
             return None if r is None else (not r)
+        if isinstance(node, ast.Compare) and len(node.ops) == 1 and isinstance(node.ops[0], (ast.Is, ast.IsNot)) \
+                and self.fn.heap and self.env is None:
+            # heap mode: `E is self` for an argument of a declared container type: arguments do not alias the object
+            a, b = node.left, node.comparators[0]
+            for x, y in ((a, b), (b, a)):
+                if isinstance(x, ast.Name) and x.id == self.fn.self_name and isinstance(y, ast.Name) \
+                        and y.id in self.fn.spec['params']:
+                    t = self.expr(y)[1]
+                    if t[0] in ('Dict', 'List', 'Set', 'Prod', 'Int', 'Bool', 'Str'):
+                        return isinstance(node.ops[0], ast.IsNot)
         if isinstance(node, ast.Compare) and len(node.ops) == 1 and isinstance(node.ops[0], (ast.Is, ast.IsNot, ast.Eq)) \
                 and self.fn.cls is not None:
             def type_of(n):
@@ -1778,6 +1956,14 @@ class ExprTr:
     def coerce(self, e, t, expected, node):
         if expected is None or t == expected:
             return e, t
+        if expected == VAL and t is not None and boxable(t):
+            return box(e, t, node), VAL                      # heap mode: a statically typed value stored dynamically
+        if t == SENTINEL:
+            if expected[0] == 'Option' and known(expected):
+                return '(none : %s)' % show_type(expected), expected
+            if self.infer_only:
+                return e, unify(t, expected, node)
+            raise Unsupported(node, 'a sentinel where %s is expected' % (expected,))
         if not known(t):
             t2 = unify(t, expected, node)
             if t2 == expected:
@@ -1799,6 +1985,8 @@ class ExprTr:
             expected = expected[1]          # a display where a value that may be None is expected
         if isinstance(node, ast.Constant):
             v = node.value
+            if v is None and expected == VAL:
+                return 'PyHeap.Val.none', VAL
             if v is None:
                 t = expected if expected is not None and expected[0] == 'Option' else ('Option', None)
                 if not known(t) and not self.infer_only:
@@ -1834,6 +2022,12 @@ class ExprTr:
             # a fixed-length list declared as a product in the spec (`[count, delta]`)
             parts = [self.expr(e, et) for e, et in zip(node.elts, expected[1])]
             return '(' + ', '.join(p[0] for p in parts) + ')', ('Prod', tuple(p[1] for p in parts))
+        if isinstance(node, ast.List) and self.fn.heap and self.env is None \
+                and (expected is None or expected == VAL):
+            # heap mode: a list display is a new cell of the object store (translated at statement level only)
+            if self.infer_only:
+                return 'r0', VAL
+            raise Unsupported(node, 'a list display (an allocation) inside an expression')
         if isinstance(node, ast.List):
             et = expected[1] if expected is not None and expected[0] == 'List' else None
             if expected is not None and expected[0] == 'Str':
@@ -1910,8 +2104,15 @@ class ExprTr:
                 if bt[1][i] is None:
                     raise _Unknown()
                 return prod_proj(base, i, len(bt[1])), bt[1][i]
+            if bt == VAL:
+                # heap mode: `x[i]` on a dynamically typed `x`: a read of the object store
+                if isinstance(node.slice, ast.Slice) or not self.fn.heap:
+                    raise Unsupported(node, 'slice of a cell')
+                i, _ = self.expr(node.slice, INT)
+                return self.partial('PyHeap.Heap.get? %s %s %s' % (
+                    self.fn.view_term(self.fn.heap_attr), FnTranslator._atom(base), FnTranslator._atom(i)), node), VAL
             if bt[0] == 'Dict' and not isinstance(node.slice, ast.Slice):
-                kx, _ = self.expr(node.slice, bt[1])
+                kx = self.key_term(node.slice, bt[1])
                 if not self.fn.raises:
                     raise Unsupported(node, 'dict item outside the raising mode')
                 if bt[2] is None:
@@ -2045,6 +2246,8 @@ class ExprTr:
             return '(PyRt.Dict.getD %s %s %s)' % (base, kx, dx), bt[2]
         if m == '__len__' and not a:
             return '(PyRt.Dict.len %s)' % base, INT
+        if m == 'pop' and len(a) == 1 and self.fn.heap and self.infer_only:
+            return 'r0', bt[2]                  # heap mode: `x = self.<dict>.pop(k)`, translated at statement level
         raise Unsupported(node, 'dict method %s' % m)
 
     def _call(self, node: ast.Call, expected):
@@ -2059,6 +2262,18 @@ class ExprTr:
             if m == 'popitem':
                 return 'r0', ('Prod', (t[1], t[2]))
             return 'r0', UNIT
+        if isinstance(node.func, ast.Attribute) and self.env is None and fn.heap \
+                and fn.state_attr(node.func) is not None:
+            # heap mode: `self.<a>(x)` where the attribute holds a callable (or None): what it does is a parameter
+            a = fn.state_attr(node.func)
+            t = fn.cls_state[a]
+            ft = t[1] if t[0] == 'Option' else t
+            if ft is not None and ft[0] == 'Fun' and len(node.args) == 1 and not node.keywords:
+                x, _ = self.expr(node.args[0], ft[1])
+                f = 's.self.%s' % lean_field(a)
+                if t[0] != 'Option':
+                    f = '(some %s)' % f
+                return self.partial('PyHeap.callOpt? %s %s' % (f, FnTranslator._atom(x)), node), ft[2]
         if isinstance(node.func, ast.Attribute) and self.env is None:
             callee = fn._method_call(node, {'nn': self.nn})
             if callee is not None:
@@ -2226,6 +2441,40 @@ class ExprTr:
         e, t = self.expr(node)
         return self.truthy(e, t, node)
 
+    def _heap_is(self, left, op, right, node):
+        """heap mode: `a is b` / `a is not b` on dynamically typed values, `a is <sentinel>`; None when the
+        comparison is an ordinary `x is None` on an Option"""
+        neg = isinstance(op, ast.IsNot)
+        is_none = isinstance(right, ast.Constant) and right.value is None
+        is_sent = isinstance(right, ast.Name) and right.id in self.fn.sentinels and right.id not in self.fn.vars
+        saved, self.nn = self.nn, frozenset()
+        try:
+            l, lt = self.expr(left)
+        finally:
+            self.nn = saved
+        if lt == VAL:
+            if is_none or is_sent:
+                p = '(PyHeap.Val.%s %s = true)' % ('isNone' if is_none else 'isSentinel', FnTranslator._atom(l))
+            else:
+                r, _ = self.expr(right, VAL)
+                p = '(%s = true)' % self.partial('PyHeap.Val.is? %s %s' % (FnTranslator._atom(l),
+                                                                          FnTranslator._atom(r)), node)
+            return '(¬ %s)' % p if neg else p
+        if lt[0] == 'Option' and (is_sent or is_none):
+            if lt[1] is not None and lt[1][0] == 'Fun':         # no decidable equality on callables
+                return '(%s.%s = true)' % (FnTranslator._atom(l), 'isSome' if neg else 'isNone')
+            if is_sent:
+                return '(%s %s none)' % (l, '≠' if neg else '=')
+            return None
+        if is_none or is_sent:
+            return None
+        rt = self.fn._type_of(right, self.nn)
+        if rt == VAL and boxable(lt):
+            r, _ = self.expr(right, VAL)
+            p = '(%s = true)' % self.partial('PyHeap.Val.is? %s %s' % (box(l, lt, node), FnTranslator._atom(r)), node)
+            return '(¬ %s)' % p if neg else p
+        return None
+
     def truthy(self, e, t, node):
         if t == BOOL:
             return '(%s = true)' % e
@@ -2277,6 +2526,10 @@ class ExprTr:
                     raise Unsupported(node, 'membership in %s' % (rt,))
                 p = '(PyRt.contains %s %s = true)' % (r, l)
             return p if isinstance(op, ast.In) else '(¬ %s)' % p
+        if isinstance(op, (ast.Is, ast.IsNot)) and self.fn.heap and self.env is None:
+            r = self._heap_is(left, op, right, node)
+            if r is not None:
+                return r
         if isinstance(op, (ast.Is, ast.IsNot)):
             if isinstance(right, ast.Constant) and right.value is None:
                 saved, self.nn = self.nn, frozenset()       # the test itself reads the Option
@@ -2345,7 +2598,8 @@ def class_state_text(cls) -> str:
     """the record of the object state of a class: the attributes the spec declares"""
     tp = cls.get('tparams', [])
     out = ['/-- object state of `%s` (the attributes declared in the spec) -/' % cls['name'],
-           'structure %s.St %swhere' % (cls['lean_name'], ('(%s : Type) ' % ' '.join(tp)) if tp else '')]
+           'structure %s.St %swhere' % (cls.get('state_lean', cls['lean_name']),
+                                        ('(%s : Type) ' % ' '.join(tp)) if tp else '')]
     for a, t in cls['state'].items():
         f = lean_field(a)
         out.append('  %s : %s%s' % (f, show_type(parse_type(t)), '' if f == a else '    -- ' + a))
@@ -2382,8 +2636,8 @@ def translate_source(src: str, specs: list, module_name: str, rel: str):
             text = tr.emit()
             emitted.add(spec['lean_name'])
             cls = spec.get('cls')
-            if cls is not None and cls['lean_name'] not in classes:
-                classes.append(cls['lean_name'])
+            if cls is not None and cls.get('state_lean', cls['lean_name']) not in classes:
+                classes.append(cls.get('state_lean', cls['lean_name']))
                 text = class_state_text(cls) + '\n' + text
         except (Unsupported, _Unknown, RecursionError) as e:
             # outside the subset: no definition is emitted, so the tie theorem of this function stops
@@ -2396,24 +2650,28 @@ def translate_source(src: str, specs: list, module_name: str, rel: str):
         head.append('  %s (lines %s) -> Src.%s.%s' % (spec['qualname'], info['lines'], short, spec['lean_name']))
     out = ('/- GENERATED by harness/py2lean.py from %s - do not edit.\n'
            '   Shallow CPS translation of the current source text (rules: notes/SRCTIE.md):\n%s\n-/\n'
-           'import BoltonsVerif.PyRt\n\nnamespace Src.%s\n\n%s\nend Src.%s\n' % (
-               rel, '\n'.join(head), short, '\n'.join(parts), short))
+           'import BoltonsVerif.%s\n\nnamespace Src.%s\n\n%s\nend Src.%s\n' % (
+               rel, '\n'.join(head), 'PyHeap' if any((sp.get('cls') or {}).get('heap') for sp in specs) else 'PyRt',
+               short, '\n'.join(parts), short))
     return out, infos
 
 
 def generate(pid: str, repo: str):
     """all generated files of one property: ({file name: text}, infos)"""
     import srctie_specs
-    mods = {spec['module'] for spec in srctie_specs.SPECS.get(pid, [])}
+    # a generated file holds the functions of one module (spec `gen_file`: of one named group of a module, so that
+    # e.g. the heap-mode classes of boltons.cacheutils do not share a file with ThresholdCounter)
+    mods = {(spec['module'], spec.get('gen_file')) for spec in srctie_specs.SPECS.get(pid, [])}
     by_mod = {}
     for p in sorted(srctie_specs.SPECS):       # a module file holds the functions of every property using it
         for spec in srctie_specs.SPECS[p]:
-            if spec['module'] in mods:
-                by_mod.setdefault(spec['module'], []).append(spec)
+            if (spec['module'], spec.get('gen_file')) in mods \
+                    and not any(spec is x for x in by_mod.get((spec['module'], spec.get('gen_file')), [])):
+                by_mod.setdefault((spec['module'], spec.get('gen_file')), []).append(spec)
     files, infos = {}, []
-    for module_name in sorted(by_mod):
-        text, inf = translate_module(module_name, by_mod[module_name], repo)
-        files['Src_%s.lean' % module_name.split('.')[-1]] = text
+    for module_name, gen in sorted(by_mod, key=lambda x: (x[0], x[1] or '')):
+        text, inf = translate_module(module_name, by_mod[(module_name, gen)], repo)
+        files['Src_%s.lean' % (gen or module_name.split('.')[-1])] = text
         infos.extend(inf)
     return files, infos
 
